@@ -57,6 +57,7 @@ type FuncContract struct {
 	GhostSets  []GhostSet
 	CallAsserts map[string][]*Clause // "callee#k" -> assertions checked right before that call site
 	Defines    []*LocalDef
+	EntryAssumes []*Clause // facts that define thread-local ghost state of the goroutine running this function (assumed at entry, never asserted at spawn)
 }
 
 // LocalDef: a contract-local definition `define name(p T, ...) S = expr`: a fresh function symbol whose defining equation
@@ -223,7 +224,7 @@ func readContractLines(path string, requirePrefix bool) ([]rawLine, string, erro
 var clauseKeywords = map[string]bool{"requires": true, "ensures": true, "invariant": true, "modifies": true, "pure": true,
 	"trusted": true, "may_panic": true, "loop": true, "func": true, "extern": true, "functype": true, "lemma": true,
 	"sort": true, "fn": true, "axiom": true, "ghost": true, "pkgframe": true, "guarded": true, "lockinv": true,
-	"acquires": true, "releases": true, "opaque": true, "reveal": true, "uses": true, "allocates": true, "noaxioms": true, "ghostset": true, "before_call": true, "macro": true, "define": true, "theorem": true, "crashinv": true, "note": true, "recfn": true, "props": true}
+	"acquires": true, "releases": true, "opaque": true, "reveal": true, "uses": true, "allocates": true, "noaxioms": true, "ghostset": true, "before_call": true, "macro": true, "define": true, "theorem": true, "entry_assume": true, "crashinv": true, "note": true, "recfn": true, "props": true}
 
 func firstWord(s string) (string, string) {
 	s = strings.TrimSpace(s)
@@ -315,6 +316,15 @@ func parseDirectives(lines []rawLine, pkgPath string, spec *SpecSet, contracts m
 			}
 			curLoop = &LoopContract{}
 			cur.Loops[k] = curLoop
+		case "entry_assume":
+			c, err := mkClause("entry_assume", d)
+			if err != nil {
+				return err
+			}
+			if cur == nil {
+				return fmt.Errorf("%s:%d: entry_assume outside func", d.file, d.line)
+			}
+			cur.EntryAssumes = append(cur.EntryAssumes, c)
 		case "requires", "ensures", "invariant", "crashinv":
 			c, err := mkClause(d.kw, d)
 			if err != nil {
